@@ -20,7 +20,7 @@ def ref_of_content(c, patched_data=None):
 class C01(PropertyCheck):
     pid = "C01"
     source_tables = ["BIN_HEADER"]   # tables / constants regenerated from /repo's source (gen/srctables.py)
-    release_too = False
+    release_too = True       # both build profiles (review 2: the both-modes theorems must be tied to a release build too)
     rule = ("streams: (A) archives built through the public API from random well-formed contents (sizes 0..256 quick / ..16384 thorough, "
             "unaligned lengths, labels on the end address, several labels per address, strings equal to label names, empty strings, "
             "non-ASCII lossless Shift-JIS, c-strings mixed with strings), serialized, parsed back, re-serialized; (B) files produced by an "
